@@ -293,3 +293,49 @@ Definition render_entry (e : entry) : list string :=
   | EUnrecognised w => ["?unrecognised " ++ w]
   end.
 Definition render_outline (o : module_outline) : string := String.concat nl (flat_map render_entry o).
+
+(* ---------- boolean equality (so that a per-artefact obligation that does not hold fails fast: `false = true`) ---------- *)
+Fixpoint list_eqb {A} (e : A -> A -> bool) (l1 l2 : list A) : bool :=
+  match l1, l2 with
+  | [], [] => true
+  | x :: r, y :: r' => e x y && list_eqb e r r'
+  | _, _ => false
+  end.
+Definition pair_eqb {A B} (ea : A -> A -> bool) (eb : B -> B -> bool) (p q : A * B) : bool := ea (fst p) (fst q) && eb (snd p) (snd q).
+Definition option_eqb {A} (e : A -> A -> bool) (a b : option A) : bool :=
+  match a, b with Some x, Some y => e x y | None, None => true | _, _ => false end.
+Definition meth_eqb (a b : meth) : bool :=
+  String.eqb (m_deco a) (m_deco b) && String.eqb (m_name a) (m_name b) && String.eqb (m_ret a) (m_ret b).
+Definition oval_eqb (a b : oval) : bool :=
+  match a, b with
+  | OvInt x, OvInt y => Z.eqb x y
+  | OvRef t m, OvRef t' m' => String.eqb t t' && String.eqb m m'
+  | _, _ => false
+  end.
+Definition cfield_eqb (a b : cfield) : bool :=
+  match a, b with
+  | CfAssign n v, CfAssign n' v' => String.eqb n n' && Z.eqb v v'
+  | CfConst n t v, CfConst n' t' v' => String.eqb n n' && String.eqb t t' && oval_eqb v v'
+  | CfHints b hs, CfHints b' hs' => option_eqb String.eqb b b' && list_eqb (pair_eqb String.eqb String.eqb) hs hs'
+  | CfUnsupported w, CfUnsupported w' => String.eqb w w'
+  | CfUnrecognised w, CfUnrecognised w' => String.eqb w w'
+  | _, _ => false
+  end.
+Definition class_eqb (a b : class_outline) : bool :=
+  String.eqb (co_name a) (co_name b) && String.eqb (co_base a) (co_base b) && list_eqb cfield_eqb (co_fields a) (co_fields b)
+  && list_eqb meth_eqb (co_methods a) (co_methods b).
+Definition factory_eqb (a b : factory_outline) : bool :=
+  String.eqb (fo_name a) (fo_name b) && String.eqb (fo_parent a) (fo_parent b)
+  && list_eqb String.eqb (fo_discriminator a) (fo_discriminator b)
+  && list_eqb (pair_eqb (list_eqb (pair_eqb String.eqb String.eqb)) String.eqb) (fo_entries a) (fo_entries b)
+  && list_eqb (pair_eqb String.eqb String.eqb) (fo_names a) (fo_names b)
+  && list_eqb meth_eqb (fo_methods a) (fo_methods b).
+Definition entry_eqb (a b : entry) : bool :=
+  match a, b with
+  | EClass x, EClass y => class_eqb x y
+  | EFactory x, EFactory y => factory_eqb x y
+  | EError x, EError y => String.eqb x y
+  | EUnrecognised x, EUnrecognised y => String.eqb x y
+  | _, _ => false
+  end.
+Definition outline_eqb (a b : module_outline) : bool := list_eqb entry_eqb a b.
